@@ -35,7 +35,7 @@ def _feat(cfg, avoid=()):
 
 PROFILE = {
     "feat": _feat,
-    "edits": ["var", "ver", "lit", "comment", "unrelated", "default"],
+    "edits": ["var", "ver", "lit", "rtx", "comment", "unrelated", "default"],
     "n": (3, 10),
     "locations": ["package", "package", "package", "main", "notebook"],
     "p_restart": 0.7,
